@@ -392,6 +392,15 @@ func main() {
 			Note: "minimised by rapid; replay with: /verif/bin/check replay " + replayPath}
 		b, _ := json.MarshalIndent(rf, "", " ")
 		os.WriteFile(replayPath, b, 0o644)
+		// a violation is only reported if its replay file reproduces it exactly in a fresh process;
+		// anything else is trouble with the machinery (exit 2), never an alarm
+		c := exec.Command(bin, "-test.run", "^TestProp$", "-test.timeout", "0", "-test.cpu", "2")
+		c.Env = append(os.Environ(), "XSIM_PROP="+prop, "XSIM_REPLAY="+replayPath, "XSIM_SCRATCH="+cacheDir())
+		rout, _ := c.CombinedOutput()
+		if !strings.Contains(string(rout), "exact=true") {
+			fmt.Printf("xsim: the violation found by a worker does not reproduce from its replay file %s:\n%s\n", replayPath, tail(string(rout), 12))
+			die(2, "non-reproducible violation (%s): machinery trouble, no verdict", a.Viol.Violation.Fingerprint())
+		}
 	}
 	if !*noEvidence {
 		writeEvidence(prop, *tier, seed, pc, a, wall, nviol)
